@@ -4,8 +4,10 @@ CONSTANTS
   Socks = {s1, s2}
   AtomicCheck = FALSE
   DeadBind = FALSE
+  DeadAdopt = FALSE
   MaxDeliver = 2
 INVARIANT NoStuckLive
 INVARIANT ResultTyped
+INVARIANT NoOrphan
 PROPERTY Eventually
 CHECK_DEADLOCK FALSE
